@@ -448,6 +448,11 @@ func (s *Server) handlePADT(clientMAC net.HardwareAddr, sessionID uint16) {
 		return
 	}
 
+	// Only the session's owner may terminate it
+	if session.ClientMAC.String() != clientMAC.String() {
+		return
+	}
+
 	s.logger.Info("PPPoE session terminated by client",
 		zap.Uint16("session_id", sessionID),
 		zap.String("client_mac", clientMAC.String()),
@@ -475,6 +480,11 @@ func (s *Server) handleSession(clientMAC net.HardwareAddr, data []byte) {
 
 	session := s.sessions.GetSession(hdr.SessionID)
 	if session == nil {
+		return
+	}
+
+	// Only the session's owner may drive it
+	if session.ClientMAC.String() != clientMAC.String() {
 		return
 	}
 
